@@ -195,9 +195,11 @@ func c19RaceGen(r *kit.Rand, i int) c19Case {
 
 func TestVerifC19Race(t *testing.T) {
 	kit.Run(t, "C19", kit.Class[c19Case]{
-		Name: "c19-concurrent", Quick: 12, Thorough: 200,
-		Gen: c19RaceGen, Check: c19RaceCheck, MinNonTrivial: 6,
+		Name: "c19-concurrent", Quick: 20, Thorough: 300,
+		Gen: c19RaceGen, Check: c19RaceCheck, MinNonTrivial: 10,
+		// Serial: concurrent db.OpenSQL calls write the shared sqlite3 driver's ConnectHook (outside this property)
+		Serial:     true,
 		NonTrivial: func(c c19Case) bool { v, ok := c19Outcomes.Load(c.ID); return ok && v.(bool) },
-		Rule: "4-8 uploads committed one after the other through storage.Client while 2-4 reader goroutines issue the scenario's queries and listings through storage.Client and db.DB; every answer must equal the model for one upload prefix between 'acknowledged before the call' and 'begun before the return'; run under -race. Non-trivial: at least one answer overlapped an upload in progress.",
+		Rule:       "4-8 uploads committed one after the other through storage.Client while 2-4 reader goroutines issue the scenario's queries and listings through storage.Client and db.DB; every answer must equal the model for one upload prefix between 'acknowledged before the call' and 'begun before the return'; run under -race. Non-trivial: at least one answer overlapped an upload in progress.",
 	})
 }
